@@ -1,42 +1,5 @@
-"""Per-property manifest texts."""
+"""Manifest texts are in checks/parts/Cxx.py; this module only keeps the two shared constants."""
+from . import TEXTS  # noqa
 NOT_BUILT_REASON = ('check not built yet in this session (work in progress; the property is a simulation '
                     'target per DESIGN.md section 5 and will be claimed once its scenario exists)')
 NOT_APPLICABLE = {}
-
-TEXTS = {
-    'C13': {
-        'level': 'Seeded search over message sequences x kernel behaviours: the real Connection framing/send/recv '
-                 'loops run over simulated pipes and socket pairs whose reads and writes are split at '
-                 'scheduler-chosen byte counts, interrupted with EINTR, throttled by 64B..64KiB buffers, and whose '
-                 'peer closes at chosen byte offsets (header / payload / boundary); FIFO reference model of whole '
-                 'messages checked per receive (recv_bytes, recv_bytes_into, recv, poll), plus argument/state '
-                 'checks that must fail before any I/O (kernel I/O counter). Sampling, not proof.',
-        'ref': 'DESIGN.md 5 (C13), 4 (S-CONN)',
-        'note': 'Trusted: a pipe/stream socket is a reliable byte FIFO as modelled by simos.kernel (cross-checked '
-                'against os.pipe by selftest/conformance.py). Lengths near 2**31-1 are not allocated.',
-    },
-    'C18': {
-        'level': 'Seeded search over key pairs (equal, one bit apart, prefix/extension, case, random, 1B..4KiB), '
-                 'honest x honest and honest x hostile handshakes on a simulated stream socket: the hostile side '
-                 'sends at each step a scripted message (correct/truncated/extended/bit-flipped/other-key/replayed '
-                 'digest, early WELCOME/FAILURE, oversize, empty, close, malformed challenge); oracle: a connection '
-                 'is returned iff the peer produced exactly HMAC(key, this connection\'s challenge) and the expected '
-                 'verdicts, both sides fail with AuthenticationError on different keys, each challenge is a fresh '
-                 'urandom(20) value that really went over the wire, non-bytes keys raise TypeError unused.',
-        'ref': 'DESIGN.md 5 (C18), 4 (S-AUTH)',
-        'note': 'Trusted: hmac/md5 from the standard library; cryptographic strength of HMAC-MD5 and relay of a '
-                'digest computed by another honest key holder are outside the check.',
-    },
-    'C17': {
-        'level': 'Seeded search over schedules (pre-emption at every semaphore operation; timeouts fire at '
-                 'scheduler-chosen instants) of billiard.synchronize Condition/Event/Lock/Semaphore code running '
-                 'unmodified on a simulated SemLock, in thread and in process (pickled-copy) mode; history oracle: '
-                 'every True wait matched to a distinct grant, untimed waiters owed a wake-up get it, timed-out '
-                 'waits return False only after the deadline, counters consistent at quiescence, Event.wait/is_set '
-                 'agree with the flag timeline. Sampling, not proof.',
-        'ref': 'DESIGN.md 5 (C17), 3, 4 (S-SYNC)',
-        'note': 'Trusted: the real POSIX semaphore behaves like simos.objects.SimSemLock (cross-checked by '
-                'selftest/conformance.py against _multiprocessing.SemLock); pre-emption granularity is one '
-                'semaphore operation.',
-    },
-}
